@@ -202,6 +202,22 @@ def main():
         raise ValueError("LockingDeque.append/appendleft/__signal do not match a modelled algorithm")
     g.attempt("ldAlg", "tokenAfter", ld_alg)
 
+    def clear_acks_each():
+        LDq = find_class(ao, "LockingDeque")
+        fn = find_func(LDq, "clear")
+        ws = [n for n in ast.walk(fn) if isinstance(n, ast.While)]
+        if len(ws) != 1:
+            raise ValueError("LockingDeque.clear: expected one drain loop")
+        in_loop = "task_done()" in unparse(ws[0])
+        handlers = [h for n in ast.walk(fn) if isinstance(n, ast.Try) for h in n.handlers]
+        in_handler = any("task_done()" in unparse(h) for h in handlers)
+        if in_loop and not in_handler:
+            return True
+        if in_handler and not in_loop:
+            return False
+        raise ValueError("LockingDeque.clear: unrecognised acknowledgement scheme")
+    g.attempt("clearAcksEach", True, clear_acks_each)
+
     def ld_caps():
         LDq = find_class(ao, "LockingDeque")
         src = unparse(find_func(LDq, "__init__"))
@@ -209,6 +225,71 @@ def main():
             return True
         raise ValueError("LockingDeque capacities are not both HsmWithQueues.QUEUE_SIZE")
     g.attempt("ldCapsEqual", True, ld_caps)
+
+    # ---- fabric tags ----------------------------------------------------------
+    AF = find_class(ao, "ActiveFabricSource")
+
+    def fe_order():
+        fn = find_func(find_class(ao, "FabricEvent"), "__lt__")
+        src = unparse(fn).replace(" ", "").replace("\n", "")
+        if "return(self.priority,self.sequence_number)<(other.priority,other.sequence_number)" in src:
+            init = unparse(find_func(find_class(ao, "FabricEvent"), "__init__"))
+            if "self.sequence_number = next(FabricEvent.sequence)" in init:
+                return "prioSeq"
+            raise ValueError("FabricEvent.__lt__ uses sequence_number but __init__ does not draw it from the counter")
+        if "returnself.priority<other.priority" in src:
+            return "prioOnly"
+        raise ValueError("unrecognised FabricEvent.__lt__")
+    g.attempt("fab.feOrder", "prioSeq", fe_order)
+
+    def lifo_deliver():
+        fn = find_func(AF, "thread_runner_lifo")
+        src = unparse(fn)
+        if "isinstance(q, LockingDeque)" in src and "q.appendleft(lifo_item.event)" in src and "q.append(lifo_item.event)" in src:
+            return "appendleftForAO"
+        if "q.appendleft" not in src and "q.append(lifo_item.event)" in src:
+            return "append"
+        raise ValueError("unrecognised lifo delivery")
+    g.attempt("fab.lifoDeliver", "appendleftForAO", lifo_deliver)
+
+    def fifo_deliver_plain():
+        src = unparse(find_func(AF, "thread_runner_fifo"))
+        if "q.append(fifo_item.event)" in src and "appendleft" not in src:
+            return True
+        raise ValueError("unrecognised fifo delivery")
+    g.attempt("fab.fifoDeliverPlain", True, fifo_deliver_plain)
+
+    def start_keeps():
+        fn = find_func(find_func(AF, "start"), "initiate_thread")
+        top_returns = [s for s in fn.body if isinstance(s, ast.Return)]
+        nested = [n for n in ast.walk(fn) if isinstance(n, ast.Return)]
+        if len(nested) != 1:
+            raise ValueError("initiate_thread: expected one return")
+        return len(top_returns) == 1
+    g.attempt("fab.startKeepsHandles", True, start_keeps)
+
+    def clear_in_place():
+        fn = [n for n in AF.body if isinstance(n, ast.FunctionDef) and n.name == "clear"][0]
+        src = unparse(fn)
+        replaced = "self.fifo_fabric_queue = PriorityQueue()" in src
+        inplace = "self.fifo_subscriptions.clear()" in src and "self.lifo_subscriptions.clear()" in src \
+            and "get_nowait()" in src and "task_done()" in src
+        if inplace and not replaced:
+            return True
+        if replaced and not inplace:
+            return False
+        raise ValueError("unrecognised ActiveFabricSource.clear")
+    g.attempt("fab.clearInPlace", True, clear_in_place)
+
+    def subscribe_keeps():
+        fn = find_func(find_func(AF, "subscribe"), "_subscribe")
+        src = unparse(fn)
+        if "registry.index(" in src:
+            return False
+        if "if id(queue) not in queue_ids" in src and "registry.append(queue)" in src:
+            return True
+        raise ValueError("unrecognised _subscribe")
+    g.attempt("fab.subscribeKeepsOthers", True, subscribe_keeps)
 
     # ---- emit -------------------------------------------------------------
     v = g.values
@@ -220,6 +301,7 @@ def main():
     lines.append("/- GENERATED by harness/gen_constants.py from the current miros source. Do not edit. -/")
     lines.append("import MirosModel.Hsm.Model")
     lines.append("import MirosModel.Conc.LockingDeque")
+    lines.append("import MirosModel.Conc.Fabric")
     lines.append("namespace Miros.Gen")
     lines.append("def retStatus : List (String × Nat) := " + table(v["retStatus"]))
     lines.append("def signalTable : List (String × Nat) := " + table(v["innerSignals"]))
@@ -230,6 +312,12 @@ def main():
     lines.append("def queryRestoresName : Bool := " + b(v["queryRestoresName"]))
     lines.append("def ldAlg : Miros.Conc.LD.Alg := .%s" % v["ldAlg"])
     lines.append("def ldCapsEqual : Bool := " + b(v["ldCapsEqual"]))
+    lines.append("def clearAcksEach : Bool := " + b(v["clearAcksEach"]))
+    lines.append("def fabTags : Miros.Conc.Fab.Tags := { feOrder := .%s, lifoDeliver := .%s, startKeepsHandles := %s, "
+                 "clearInPlace := %s, subscribeKeepsOthers := %s }" % (
+                     v["fab.feOrder"], v["fab.lifoDeliver"], b(v["fab.startKeepsHandles"]), b(v["fab.clearInPlace"]),
+                     b(v["fab.subscribeKeepsOthers"])))
+    lines.append("def fifoDeliverPlain : Bool := " + b(v["fab.fifoDeliverPlain"]))
     lines.append("end Miros.Gen")
     text = "\n".join(lines) + "\n"
     os.makedirs(os.path.dirname(OUT), exist_ok=True)
